@@ -143,6 +143,15 @@ func genHistory(r *rand.Rand, base *lib.Tree, k int, seeds [][]byte, upperNames 
 		if upperNames && r.Intn(4) == 0 {
 			op.MIME = fmt.Sprintf("application/X-Verif-UP-%d", extCounter)
 		}
+		if upperNames && len(ops) > 0 && r.Intn(6) == 0 {
+			// a name registered before in this history is used again (same or another
+			// parent, another detector / extension): still a NEW format in front of its siblings
+			prev := ops[r.Intn(len(ops))]
+			op.MIME = prev.MIME
+			if r.Intn(2) == 0 {
+				op.Parent = prev.Parent
+			}
+		}
 		op.Ext = fmt.Sprintf(".v%d", extCounter%97)
 		na := r.Intn(3)
 		for a := 0; a < na; a++ {
